@@ -252,3 +252,11 @@ impl Session {
         self.base_settings.add_root_certificate(cert);
     }
 }
+
+#[cfg(feature = "verif-hooks")]
+impl Session {
+    /// Read-only picture of the effective settings (verification hook).
+    pub fn verif_snapshot(&self) -> crate::verif::SettingsSnapshot {
+        crate::verif::snapshot(&self.base_settings)
+    }
+}
